@@ -95,6 +95,13 @@ def witnesses(tier, seed):
                 if n % 3 == seed % 3 or not quick:
                     if fn != 'inner' and not (fn == 'product' and n > 14):   # the product of n binomials has 2^n terms
                         W.append(mk(t, [n], fn, 'expr'))
+        # beyond 8 vector widths the reductions of plain tensors switch to 8-fold unrolled kernels (backend/norm.h and siblings):
+        # 33 / 65 / 129 elements are just beyond 8 widths of 4 / 8 / 16 lanes, 70 and 140 leave a remainder
+        for n in ((33, 65, 70, 129, 140) if fp else (65, 140)):
+            for fn in ('sum', 'inner', 'msum') + (('norm',) if fp else ()):
+                W.append(mk(t, [n], fn))
+        if fp:
+            W.append(mk(t, [9, 9], 'norm')); W.append(mk(t, [12, 12], 'norm'))
         for n in ([1, 2, 3, 5, 8, 9, 12] if quick else range(1, 13)):
             for fn in ('all_of', 'any_of', 'none_of'):
                 W.append(mk(t, [n], fn)); W.append(mk(t, [n], fn, 'expr'))
